@@ -126,7 +126,7 @@ CLAIMS["C11"] = ("exploration", "6.C11",
     "traversal enters (validated on every inferred type by the bounded tier), and to produce annotations within the grammar (wf_ann: forward references as leaves at any depth) that the import-completeness contracts are stated for; "
     "FunctionDefinition.from_callable / from_callable_and_traced_types are proved on top of it. The text of an annotation (repr of typing objects, regex stripping) and the *names* of the generated classes are outside the VC generator and both solvers' string fragments.",
     TRUST + "the denotation of the text is bounded only; class names are an uninterpreted function of the hint (uniqueness is not claimed: recorded finding); assumed and listed: the function's own source annotations are within the annotation grammar, "
-    "the function resolves under its module / qualified name, no empty TypedDict comes back from a store; three recorded known findings (same class name from two modules; field types of generated TypedDict classes not imported; generated classes of two functions with the same name).")
+    "the function resolves under its module / qualified name, no empty TypedDict comes back from a store; four recorded known findings (same class name from two modules; field types of generated TypedDict classes not imported; generated classes of two functions with the same name; a TypedDict under Iterator[...] - the yield position - is not replaced inside the text: `Iterator[ForwardRef('...')]`, which also falsifies the traversal side condition for yield types).")
 
 CLAIMS["C16"] = ("proof", "6.C16",
     "RemoveImportsTransformer.leave_Import / leave_ImportFrom are proved (nested loop invariants) to remove a name only if the ImportItem it denotes (module, object, alias) is in the move list, "
@@ -137,13 +137,13 @@ CLAIMS["C16"] = ("proof", "6.C16",
     "transform_module_impl are proved to keep every statement, insert the TYPE_CHECKING block after the leading __future__ / import statements and add `from __future__ import annotations` whenever something is confined. Bounded companion on real libcst: source shapes (incl. names bound again by later imports, except-branch fallbacks, sources with nothing left to annotate) x stubs, "
     "placement of every import on the AST, first statement, result executed in a fresh namespace.",
     TRUST + "T-CST (libcst node API: names, evaluated_name / evaluated_alias, with_changes, RemoveFromParent; GatherImportsVisitor as the views g_all / g_symbols / ... validated by the bounded tier), "
-    "libcst's AddImportsVisitor / ApplyTypeAnnotationsVisitor are uninterpreted pipeline stages at L1 (bounded); two recorded known findings (a function-local or TYPE_CHECKING-guarded source import of a stub name is re-added unconfined by libcst).")
+    "libcst's AddImportsVisitor / ApplyTypeAnnotationsVisitor are uninterpreted pipeline stages at L1 (bounded); recorded known findings: a function-local or TYPE_CHECKING-guarded source import of a stub name is re-added unconfined by libcst (2 shapes); when the stub's name is bound more than once in the source libcst writes `import <module>`, which is not what the stub lists and stays unconfined (3 shapes).")
 CLAIMS["C15"] = ("exploration", "6.C15",
     "Bounded stand-in (the substance of C15 is libcst's ApplyTypeAnnotationsVisitor, a dependency of several thousand lines outside any VC generator available here; assuming its contract would assume "
     "the property): run-time contract erase(parse(result)) == erase(parse(source)), existing annotations unchanged unless overwrite, stub annotations present, idempotence, on the real function over "
     "generated sources x traced subsets x overwrite x k x confinement. Proved glue (under C10/C13): overwrite = (strategy is IGNORE), confine = --pep_563, roles of stub / source, the file is written "
     "only after a successful application and with exactly the returned text.",
-    TRUST + "bounded only for the transformation itself.")
+    TRUST + "bounded only for the transformation itself; recorded known findings: second application re-adds a confined import; a name-mangled parameter (`__x` -> `_C__x`) makes libcst reject the function; a nested-class annotation `Outer.Inner` becomes `from Outer import Inner`.")
 CLAIMS["C01"] = ("exploration", "6.C01",
     "Decided end to end by the bounded run (the last stage - the rendered text denotes the type - is bounded, C11): generated module under real tracing, sqlite, `monkeytype stub` for k x rewriter x flag sets, "
     "every annotation eval-ed in the stub's namespace admits every observed value. Proved part (reported under coverage.obligations): the stage contracts this property composes are re-run here "
